@@ -145,6 +145,8 @@ def cut_at_completion(tokens, victim, tls13):
         # in TLS<=1.2 full handshakes the client's FIN precedes the
         # server's; each side receives exactly one
         first = tokens.index("FIN")
+        if first + 1 < len(tokens) and tokens[first + 1] == "FRAG":
+            first += 1      # bytes of another message in Finished's record
         return tokens[:first + 1]
     return tokens
 
